@@ -44,6 +44,39 @@ Theorem c14_roundtrip : forall v key_size ni rh, 4 <= v -> v <= 14 -> admissible
     (9 <= v -> children r = map (fun c => (fst c, Some (snd c))) (known_children ni)).
 Proof. exact roundtrip. Qed.
 
+(* ... and the same on an adapter that held another network before (its counters survive the reset
+   for v < 13): what is read back is still exactly what was written *)
+Theorem c14_roundtrip_after_previous_network : forall v key_size pn pa ni rh,
+  4 <= v -> v <= 14 -> admissible v key_size ni ->
+  exists r, read_back v (written_after v key_size pn pa ni rh) = Some r /\
+    pan_id r = pan_id ni /\ ext_pan_id r = ext_pan_id ni /\ channel r = channel ni /\
+    channel_mask r = channel_mask ni /\ update_id r = update_id ni /\
+    nwk_key r = nwk_key ni /\ nwk_key_seq r = nwk_key_seq ni /\
+    tclk r = tclk ni /\
+    link_keys r = link_keys ni /\
+    (4 < v -> nwk_key_fc r = nwk_key_fc ni /\
+              hashed_tclk r = Some (match hashed_tclk ni with Some h => h | None => rh end)) /\
+    (v = 4 -> hashed_tclk r = None) /\
+    (9 <= v -> children r = map (fun c => (fst c, Some (snd c))) (known_children ni)).
+Proof. exact roundtrip_after. Qed.
+
+(* on v4 the network frame counter cannot be stored: whatever the adapter held before stays, so the
+   counter is only claimed "where the protocol version can store it" (4 < v above) *)
+Theorem c14_v4_counter_not_stored : forall key_size pn pa ni rh r,
+  read_back 4 (written_after 4 key_size pn pa ni rh) = Some r -> nwk_key_fc r = pn.
+Proof. exact stale_counter_v4. Qed.
+
+(* a zero counter written over a non-zero one left by the previous network (v8): zero is read back *)
+Example c14_example_zero_counter_after_previous_network :
+  let ni := {| pan_id := 0x1A2B; ext_pan_id := [1;2;3;4;5;6;7;8]; channel := 15; channel_mask := 0x8000; update_id := 3;
+               manager_id := 0; nwk_key := [9;9;9]; nwk_key_seq := 7; nwk_key_fc := 0; tclk := WELL_KNOWN_TCLK; tclk_fc := 0;
+               tc_address := Some [8;7;6;5;4;3;2;1]; hashed_tclk := None;
+               link_keys := [([1], [11])]; children := [] |} in
+  option_map nwk_key_fc (read_back 8 (written_after 8 4 0x12345 0x77 ni [0xEE])) = Some 0
+  /\ n_aps_fc (written_after 8 4 0x12345 0x77 ni [0xEE]) = 0
+  /\ option_map nwk_key_fc (read_back 4 (written_after 4 4 0x12345 0x77 ni [0xEE])) = Some 0x12345.
+Proof. vm_compute. repeat split. Qed.
+
 (* KNOWN FINDING: from v5 on a trust-centre link key other than the well-known one is NOT preserved *)
 Theorem c14_tclk_refuted : exists v ni rh r, 4 < v /\ v <= 14 /\ tclk ni <> WELL_KNOWN_TCLK /\
   NoDup (map fst (link_keys ni)) /\
